@@ -25,6 +25,7 @@ ID = "C36"
 def gen_case(rng, n, length):
     """a random macro-event sequence that is valid in the model"""
     st = {t: "new" for t in range(n)}          # new | idle | incb | exited
+    has_canary = set()
     ev = []
     for _ in range(length):
         r = rng.random()
@@ -44,10 +45,17 @@ def gen_case(rng, n, length):
             elif st[t] == "incb":
                 cands.append(("end", t))
                 cands.append(("end", t))
+                if t in has_canary and rng.random() < 0.5:
+                    cands.append(("drop", t))
         if not cands:
             break
         k, t = rng.choice(cands)
         ev.append([k, t])
+        if k == "drop":
+            has_canary.discard(t)
+            continue
+        if k == "cb" and st[t] == "new":
+            has_canary.add(t)
         st[t] = {"cb": "incb", "end": "idle", "exit": "exited"}[k]
     leave_alive = rng.random() < 0.3
     for t in range(n):
@@ -73,6 +81,20 @@ def directed():
                           ["end", 4], ["exit", 1], ["exit", 4]]),
         # a thread that exits without ever calling back, and threads left alive at interpreter shutdown
         dict(n=3, events=[["exit", 0], ["cb", 1], ["end", 1], ["cb", 2], ["pycb", 0], ["end", 2]]),
+    ] + drop_cases()
+
+
+def drop_cases():
+    """a canary deallocated while its thread is alive (thread-state dict entry removed under cffi's feet);
+    the thread keeps calling back, then exits; later registrations sweep"""
+    return [
+        dict(n=2, events=[["cb", 0], ["drop", 0], ["end", 0], ["cb", 0], ["end", 0], ["exit", 0], ["gc", 0],
+                          ["cb", 1], ["end", 1], ["cb", 1], ["end", 1], ["exit", 1]]),
+        dict(n=4, events=[["cb", 0], ["end", 0], ["cb", 1], ["end", 1], ["cb", 0], ["drop", 0], ["cb", 1], ["drop", 1],
+                          ["end", 1], ["end", 0], ["exit", 1], ["cb", 2], ["end", 2], ["exit", 0], ["exit", 2],
+                          ["cb", 3], ["end", 3], ["gc", 0], ["cb", 3], ["end", 3], ["exit", 3]]),
+        dict(n=3, events=[["cb", 0], ["drop", 0], ["end", 0], ["exit", 0], ["cb", 1], ["end", 1], ["exit", 1],
+                          ["cb", 2], ["end", 2], ["cb", 2], ["end", 2]]),
     ]
 
 
@@ -85,7 +107,7 @@ def generate(ctx):
     return cases
 
 
-KIND = {"cb": 0, "end": 1, "exit": 2}
+KIND = {"cb": 0, "end": 1, "exit": 2, "drop": 4}
 
 
 def fpn(m, b, l):
@@ -155,6 +177,7 @@ def evaluate(ctx, cases):
                     # a registration sweeps the zombies: no exited thread's state may survive it
                     for t in range(n):
                         if t in first_of and any(x[0] == "exit" and x[1] == t for x in model_events[:ei]) \
+                                and not any(x[0] == "drop" and x[1] == t for x in model_events[:ei]) \
                                 and not o[1 + t]:
                             bad.append("the thread state of exited thread %d is still not destroyed after a later "
                                        "thread registered (leak)" % t)
